@@ -46,9 +46,11 @@ def expand(bursts):
 
 def impl_ids(urn, clock):
     import bobocep.cep.gen.event_id as m
-    it = iter(clock)
+    # one value per READ of the clock, the last one repeated: an implementation that looks at the clock once per
+    # request (as the code does) sees one value per request; one that looks twice sees the clock move between its reads
+    left = list(clock)
     old = m.time
-    m.time = lambda: next(it)
+    m.time = lambda: left.pop(0) if len(left) > 1 else left[0]
     try:
         g = m.BoboGenEventIDUnique(urn)
         return [g.generate() for _ in clock]
